@@ -1,8 +1,6 @@
 ------------------------- MODULE MC_RainCoreReopen -------------------------
 EXTENDS RainCoreReopen
-\* Open reads the manifest only through its fold (Recovered): two manifests with the same fold
-\* are indistinguishable from then on, so the fingerprint takes the fold instead of the record
-\* sequence.  Pin ids are names (as in MC_RainCore).
+\* pin ids are names (as in MC_RainCore): not part of the fingerprint
 RView == <<seq, hist, mem, imm, immOn, immDone, files, cur, snaps, pending, comp, disk, nextFile,
-           curWal, logWal, gcDue, immWal, Recovered, walEnts, isopen, reopens>>
+           curWal, logWal, gcDue, immWal, man, walEnts, isopen, reopens>>
 =============================================================================
